@@ -1,6 +1,6 @@
 (* C11 — every persisted product reads back equal to what was written.
    Statements only; proofs are in Proofs/CodecP.v (models in Model/Codec.v). *)
-From Verif Require Import Prelude Codec CodecP PatchData PatchDataP PatchIds PatchIdsP.
+From Verif Require Import Prelude Codec CodecP Overwrite OverwriteP PatchData PatchDataP PatchIds PatchIdsP.
 From Coq Require Import Permutation Sorting.Sorted.
 Open Scope Q_scope.
 
@@ -178,6 +178,24 @@ Print Assumptions C11_metadata_roundtrip.
 
 (* non-vacuity: a 2 x 3 x 3 array with a pair that is zero in one bin only, a member set,
    three formatted numbers, a two-bin table and a linear configuration *)
+(* ---------------- writing over what the path held before ---------------- *)
+(* to_file truncates: what is read back is what was written, whatever older product (or anything else) was there *)
+Theorem C11_overwrite_truncating_roundtrip : forall (A : Type) (old : list (kind * A)) (m : members A),
+  members_valid m = true -> members_dec (write_trunc old m) = Some m.
+Proof. exact @trunc_roundtrip. Qed.
+Print Assumptions C11_overwrite_truncating_roundtrip.
+(* a writer that opened the file for update would read every group back from the new object if it has that member,
+   else from the older file ... *)
+Theorem C11_overwrite_update_lookup : forall (A : Type) (old : list (kind * A)) (m : members A) (k : kind),
+  lookup_kind k (write_update old m) = match lookup_kind k (members_enc m) with Some a => Some a | None => lookup_kind k old end.
+Proof. exact @update_lookup. Qed.
+Print Assumptions C11_overwrite_update_lookup.
+(* ... which is the object written only if the older file held no member the new object lacks *)
+Theorem C11_overwrite_update_stale_member_refuted :
+  exists (old : list (kind * nat)) (m : members nat),
+    members_valid m = true /\ members_dec (write_update old m) <> Some m /\ members_dec (write_trunc old m) = Some m.
+Proof. exact update_stale_member_refuted. Qed.
+Print Assumptions C11_overwrite_update_stale_member_refuted.
 (* ---------------- patch_N/data.bin as bytes ---------------- *)
 (* the header byte of bit flags reads back the flags it was made from *)
 Theorem C11_patchdata_header_roundtrip : forall i : info, info_of_byte (info_byte i) = i.
